@@ -178,6 +178,20 @@ CLAIMED = {
             'SQLite evaluation of the generated SQL and the schema are trusted / bounded; date arithmetic in whole days; strings '
             'abstracted by their placeholder count',
             'contract-based deductive verification of SQL construction + bounded database stand-in', 'DESIGN 2 C14'),
+    'C13': ('other',
+            'Deductive part: CSVEntry.is_row_valid is executed for every combination of the deciding field values (576 paths): False '
+            'exactly for the documented reasons; OAGDatabase.add against the contracts of its callees: skipped only for an unknown '
+            'airport or an implausible distance, otherwise one flight record, its instances and the recorded count, with the '
+            'defaulted (start / end of data year) effective range passed to both; WritableDatabase._add_schedule for ranges of 1..3 '
+            'consecutive dates with symbolic start date, weekday set, local times, arrival day offset -1..2, zones and offsets: '
+            'exactly one instance per operating, well-ordered date, at instants wall - utc_offset(zone, wall), day number, flight '
+            'id, returned count, misordered instances dropped and warned about; _distance_check decision rule and Geod argument '
+            'order (known finding: lat/lon exchanged); _make_dow_mask. Bounded part: generated CSV rows (open-ended, single-day, '
+            'DST dates, misordered) imported by the real from_csv_row + add into SQLite and compared with a datetime/zoneinfo oracle.',
+            'pandas date_range / Timestamp arithmetic and zoneinfo offsets are assumed contracts (utc_offset uninterpreted); ranges '
+            'longer than three dates follow only by the per-date independence of the loop body (not proved by induction); CSV text '
+            'parsing and SQLite are bounded / trusted',
+            'contract-based deductive verification (AST->z3) + bounded import stand-in', 'DESIGN 2 C13'),
 }
 REASONS_TODO = 'check not built yet (work in progress; see DESIGN.md section 2)'
 
